@@ -1,27 +1,42 @@
 (* Properties_C18.v -- property C18: Memory/descriptor hygiene: only owned memory touched, everything released.  Statements only.
    Every theorem quantifies over ALL well-formed scenarios: all handler scripts, all kernel behaviours the scenario
-   language can express, all four poll methods, all fault sets, any wait limit.
-   STATUS: the full statement of this property on the core model is `mon_C18 (run_scenario sc) = true /\ no_code [706] ...`
-   (see Properties_C18.v.draft); the theorems below are the monitor clauses already proved (named _partial);
-   the remaining clause (1802: every descriptor the library opened is closed by iv_deinit) are checked on every implementation AND model trace by the extracted monitor
-   while their proofs are being completed. *)
-From Coq Require Import List ZArith Bool.
-From Ivv Require Import Core.Kernel Core.CoreTypes Core.CoreFd Core.CoreModel Core.Monitors Core.CoreSpec
-  Core.CoreRel Core.CoreCodes Core.CoreCodes2.
+   language can express (conditions changed at any point, ready order rotations, external posts), all four poll
+   methods, all fault sets (EINTR at any wait / epoll_ctl, missing system calls), any wait limit. *)
+From Coq Require Import List ZArith Bool Lia.
+From Ivv Require Import Core.Kernel Core.CoreTypes Core.CoreFd Core.CoreModel Core.Monitors Core.GuardMon Core.CoreSpec
+  Core.CoreInv Core.CoreRel Core.CoreCodes Core.CoreCodes2 Core.CoreExamples.
 Import ListNotations.
 Local Open Scope Z_scope.
 
-(* the model only calls handlers of objects that are registered (the access discipline behind "only owned memory or
-   registered objects"); the remaining clauses are bounds/abort freedom (1801/1804), descriptor balance (1802) and
-   accounting balance (706) *)
-Theorem C18_only_registered_objects_partial :
-  forall sc, wf_scenario sc -> no_code [101; 102; 103; 104; 105] (mon_fails (run_scenario sc)).
-Proof. exact codes_C01. Qed.
-Print Assumptions C18_only_registered_objects_partial.
 
-(* the model never performs an out-of-model access (an index outside the poll array / object tables: 1801) and never
-   reaches a library abort (1804); the loop-object accounting is balanced at tear-down (706) *)
-Theorem C18_no_bad_access_balanced_partial :
-  forall sc, wf_scenario sc -> no_code [1801; 1804; 706] (mon_fails (run_scenario sc)).
-Proof. exact codes_hygiene. Qed.
-Print Assumptions C18_no_bad_access_balanced_partial.
+(* no out-of-model access and no abort (1801/1804: array bounds of the poll back end, heap and radix indices,
+   NULL slots), every descriptor the library created is closed after iv_deinit (1802), accounting zero after
+   tear-down (706) *)
+Theorem C18_hygiene :
+  forall sc, wf_scenario sc -> mon_C18 (run_scenario sc) = true /\ no_code [706] (mon_fails (run_scenario sc)).
+Proof. exact core_mon_C18. Qed.
+Print Assumptions C18_hygiene.
+
+(* the model only calls handlers of objects that are registered (the access discipline behind "only owned memory or
+   registered objects") *)
+Theorem C18_only_registered_objects :
+  forall sc, wf_scenario sc -> no_code [101; 102; 103; 104; 105] (mon_fails (run_scenario sc)).
+Proof. exact CoreCodes.codes_C01. Qed.
+Print Assumptions C18_only_registered_objects.
+
+(* the state invariant behind 1801/1804: no well-formed run reaches an out-of-model access or a library abort *)
+Theorem C18_no_crash :
+  forall sc, wf_scenario sc -> ~ In TCrash (run_scenario sc) /\ ~ In TFatal (run_scenario sc).
+Proof. exact core_no_crash. Qed.
+Print Assumptions C18_no_crash.
+
+(* non-vacuity: a well-formed run on every poll method that uses every kind of object and ends with all library
+   descriptors closed (TDone 0) and zero accounting (TEnd 0 0) *)
+Example C18_nonvacuous :
+  forall be, In be [0; 1; 2; 3] ->
+    wf_scenario (ex_all be) /\ In (TEnd 0 0) (run_scenario (ex_all be)) /\ In (TDone 0) (run_scenario (ex_all be)) /\
+    In (TCallRaw 0) (run_scenario (ex_all be)).
+Proof.
+  intros be H. split; [apply ex_all_wf; cbn [In] in H; intuition lia|].
+  pose proof (ex_all_runs be H) as R. cbv zeta in R. tauto.
+Qed.
